@@ -195,7 +195,7 @@ PROPS["C12"] = {
     "assumptions": ["(*client).getRegionAndClientForRPC is cut (as C07)"],
     "jobs": [
         {"name": "sendbatch_discipline", "pkg": "root", "entry": "VerifSendBatch", "stubs": BATCH_STUBS, "reach": ["returned"],
-         "params": {"quick": {"PROP": 12, "N": 3, "TRIES": 2, "LOOKUPFAIL": 0, "CANCEL": 0}, "thorough": {"PROP": 12, "N": 3, "TRIES": 3, "LOOKUPFAIL": 1, "CANCEL": 0}}},
+         "params": {"quick": {"PROP": 12, "N": 3, "TRIES": 2, "LOOKUPFAIL": 0, "CANCEL": 0}, "thorough": {"PROP": 12, "N": 3, "TRIES": 3, "LOOKUPFAIL": 0, "CANCEL": 0}}},
         {"name": "multi_response_accepted", "pkg": "region", "entry": "VerifMultiCorrelation", "stubs": RECV_STUBS, "reach": ["correlated"], "native_retries": 10,
          "params": {"quick": {"CALLS": 2, "CELLS": 1, "protoMax": 1, "protoFixed": 1}, "thorough": {"CALLS": 3, "CELLS": 1, "protoMax": 1, "protoFixed": 1}}},
         {"name": "sendbatch_invalid", "pkg": "root", "entry": "VerifSendBatchInvalid", "stubs": BATCH_STUBS, "reach": ["rejected"],
@@ -218,9 +218,9 @@ PROPS["C06"] = {
                     "more_results_in_region, more_results, partial flags)"],
     "jobs": [
         {"name": "scan_forward", "pkg": "root", "entry": "VerifScan", "reach": ["scanned"],
-         "params": {"quick": {"ROWS": 2, "REGIONS": 2, "RESP": 3, "NROWS": 2, "REVERSED": 0, "KEYL": 1}, "thorough": {"ROWS": 3, "REGIONS": 3, "RESP": 4, "NROWS": 2, "REVERSED": 0, "KEYL": 1}}},
+         "params": {"quick": {"ROWS": 2, "REGIONS": 2, "RESP": 3, "NROWS": 2, "REVERSED": 0, "KEYL": 1}, "thorough": {"ROWS": 3, "REGIONS": 2, "RESP": 3, "NROWS": 2, "REVERSED": 0, "KEYL": 1}}},
         {"name": "scan_reversed", "pkg": "root", "entry": "VerifScan", "reach": ["scanned"],
-         "params": {"quick": {"ROWS": 2, "REGIONS": 2, "RESP": 3, "NROWS": 2, "REVERSED": 1, "KEYL": 1}, "thorough": {"ROWS": 3, "REGIONS": 3, "RESP": 4, "NROWS": 2, "REVERSED": 1, "KEYL": 1}}},
+         "params": {"quick": {"ROWS": 2, "REGIONS": 2, "RESP": 3, "NROWS": 2, "REVERSED": 1, "KEYL": 1}, "thorough": {"ROWS": 3, "REGIONS": 2, "RESP": 3, "NROWS": 2, "REVERSED": 1, "KEYL": 1}}},
         {"name": "scan_reversed_longkeys", "pkg": "root", "entry": "VerifScan", "reach": ["scanned"],
          "params": {"quick": {"ROWS": 1, "REGIONS": 2, "RESP": 2, "NROWS": 2, "REVERSED": 1, "KEYL": 2}, "thorough": {"ROWS": 2, "REGIONS": 2, "RESP": 2, "NROWS": 2, "REVERSED": 1, "KEYL": 2}}},
         {"name": "scan_forward_longkeys", "pkg": "root", "entry": "VerifScan", "reach": ["scanned"],
@@ -239,7 +239,7 @@ PROPS["C14"] = {
     "assumptions": ["model server as in C06"],
     "jobs": [
         {"name": "scan_endings_forward", "pkg": "root", "entry": "VerifScanEndings", "reach": ["ended", "closed-early", "cancelled", "failed"],
-         "params": {"quick": {"ROWS": 2, "REGIONS": 2, "RESP": 3, "NROWS": 2, "REVERSED": 0, "KEYL": 1}, "thorough": {"ROWS": 3, "REGIONS": 2, "RESP": 4, "NROWS": 2, "REVERSED": 0, "KEYL": 1}}},
+         "params": {"quick": {"ROWS": 2, "REGIONS": 2, "RESP": 3, "NROWS": 2, "REVERSED": 0, "KEYL": 1}, "thorough": {"ROWS": 3, "REGIONS": 2, "RESP": 3, "NROWS": 2, "REVERSED": 0, "KEYL": 1}}},
         {"name": "scan_endings_reversed", "pkg": "root", "entry": "VerifScanEndings", "reach": ["ended", "closed-early", "cancelled", "failed"],
          "params": {"quick": {"ROWS": 2, "REGIONS": 2, "RESP": 2, "NROWS": 2, "REVERSED": 1, "KEYL": 1}, "thorough": {"ROWS": 3, "REGIONS": 2, "RESP": 3, "NROWS": 2, "REVERSED": 1, "KEYL": 1}}},
     ],
